@@ -23,7 +23,7 @@
     e    ::= (int n) | (bool 0|1) | (unit) | (var x) | (host f e…) | (call f e…)
            | (bin op e e) | (and e e) | (or e e) | (not e) | (neg e)
            | (ite e blk blk) | (if1 e blk) | (match opt|enm e arm…) | (while e blk) | (for x e blk)
-           | (block blk) | (set x e) | (cset op x e) | (ret e) | (accept e) | (reject e)
+           | (block blk) | (set x e) | (cset op x e) | (setf x i e) | (csetf op x i e) | (ret e) | (accept e) | (reject e)
            | (try e) | (some e) | (none) | (ctor k e…) | (record (p…) e…) | (field e i)
            | (list e…) | (fstr part…) | (concat e e)
     arm  ::= (arm pat blk) | (armg pat e blk)      pat ::= (v k x…) | (wild)
@@ -130,6 +130,8 @@ partial def toExpr : Sexp → Option Expr
   | .list [.atom "block", b] => do pure (.block (← toBlock b))
   | .list [.atom "set", .atom x, e] => do pure (.assign (← x.toNat?) (← toExpr e))
   | .list [.atom "cset", .atom op, .atom x, e] => do pure (.cassign (← parseOp op) (← x.toNat?) (← toExpr e))
+  | .list [.atom "setf", .atom x, .atom i, e] => do pure (.assignF (← x.toNat?) (← i.toNat?) (← toExpr e))
+  | .list [.atom "csetf", .atom op, .atom x, .atom i, e] => do pure (.cassignF (← parseOp op) (← x.toNat?) (← i.toNat?) (← toExpr e))
   | .list [.atom "ret", e] => do pure (.ret (← toExpr e))
   | .list [.atom "accept", e] => do pure (.accept (← toExpr e))
   | .list [.atom "reject", e] => do pure (.reject (← toExpr e))
